@@ -20,6 +20,11 @@ Theorem C10_z3_one_decision_each : forall ins fs a ds, gen_z3 ins = Ok fs -> sat
 Proof. exact c10_z3_one_decision_each. Qed.
 Print Assumptions C10_z3_one_decision_each.
 
+Theorem C10_z3_at_most_one_decision_per_task : forall ins fs a ds, gen_z3 ins = Ok fs -> sat fs a = true ->
+  readback ins a = Ok ds -> NoDup (map zt_id (i_tasks ins)) -> NoDup (map dec_task ds).
+Proof. exact c10_z3_at_most_one. Qed.
+Print Assumptions C10_z3_at_most_one_decision_per_task.
+
 Theorem C10_z3_placed_facts : forall ins fs a t, gen_z3 ins = Ok fs -> sat fs a = true -> In t (i_tasks ins) ->
   truth a (VPlaced (zt_id t)) = true ->
   any_compatible ins t = true /\ 0 < nworkers ins /\
